@@ -3,6 +3,8 @@
 package zz_verif
 
 import (
+	"sync"
+
 	ipfslog "berty.tech/go-ipfs-log"
 	"berty.tech/go-ipfs-log/iface"
 	"berty.tech/go-ipfs-log/internal/vx"
@@ -152,3 +154,56 @@ func H_C17_denied() {
 var _ iface.IPFSLogEntry
 var _ = register("H_C17_denied", H_C17_denied)
 var _ = register("H_C17", H_C17)
+
+// H_C17_twins: two handles of one log (same identity, same state, one codec instance, one store) append the same
+// payload at the same time: both writes are of one byte-identical block. The store's Add takes time and the
+// first Add may fail. Every append that reports success has its block in the store when it returns.
+func H_C17_twins() {
+	cfg := histParams()
+	cfg.realIO = true
+	cfg.R, cfg.W, cfg.K = 1, 1, 0
+	h := newHist(cfg)
+	dag := h.api.Dag().(*memDag)
+	io := h.io()
+	A1 := newLogOpt(h.api, h.ids[0], &ipfslog.LogOptions{ID: "X", IO: io, SortFn: h.sortFn()})
+	A2 := newLogOpt(h.api, h.ids[0], &ipfslog.LogOptions{ID: "X", IO: io, SortFn: h.sortFn()})
+	dag.slow = true
+	if f := vx.Choice("failAdd", 3); f > 0 {
+		dag.failAdds[dag.adds+f] = true
+		vx.Cover("write-fault")
+	}
+	var e1, e2 iface.IPFSLogEntry
+	var err1, err2 error
+	var wg sync.WaitGroup
+	wg.Add(2)
+	vx.ExploreOn()
+	go func() {
+		defer wg.Done()
+		e1, err1 = A1.Append(ctx, []byte("same"), nil)
+		if err1 == nil {
+			dag.mu.Lock()
+			_, ok := dag.nodes[hstr(e1)]
+			dag.mu.Unlock()
+			vx.Assert("C17", ok, "an append that returned an entry has written its block (concurrent identical writes)")
+		}
+	}()
+	go func() {
+		defer wg.Done()
+		e2, err2 = A2.Append(ctx, []byte("same"), nil)
+		if err2 == nil {
+			dag.mu.Lock()
+			_, ok := dag.nodes[hstr(e2)]
+			dag.mu.Unlock()
+			vx.Assert("C17", ok, "an append that returned an entry has written its block (concurrent identical writes)")
+		}
+	}()
+	wg.Wait()
+	vx.ExploreOff()
+	if err1 == nil && err2 == nil {
+		vx.Assert("C17", e1.GetHash().Equals(e2.GetHash()), "identical appends on identical handles give one identifier")
+		vx.Cover("both-appended")
+	}
+	vx.Cover("twins-done")
+}
+
+var _ = register("H_C17_twins", H_C17_twins)
